@@ -97,20 +97,13 @@ def visibleLeaves (t : Tree) : List Leaf :=
 def wfParamNames (t : Tree) : Bool :=
   ((visibleLeaves t).map (fun l => paramName l.info.name)).Nodup
 
-/-- a left-out field of an EMBEDDED struct takes part in Go's shadowing but the generator only remembers
-    the left-out TOP-level fields (finding region F_nestedSkipShadows) -/
-def nestedSkipShadows (t : Tree) : Bool :=
-  (leavesTop t).any (fun l => !l.top && l.info.skip &&
-    (members 0 t).any (fun m => m.1 = l.info.name ∧ m.2 > l.depth))
-
 def skipWithDef (t : Tree) : Bool := (leavesTop t).any (fun l => l.top && l.info.skip && l.info.defv ≠ "")
 
 def WF (t : Tree) : Bool :=
-  wfLevels t && wfParamNames t && !nestedSkipShadows t && !skipWithDef t
+  wfLevels t && wfParamNames t && !skipWithDef t
 
 def region (t : Tree) : String :=
   if !wfLevels t || !wfParamNames t || skipWithDef t then "Out"
-  else if nestedSkipShadows t then "F_nestedSkipShadows"
   else "WF"
 
 end ShootVerif.Ctor
